@@ -175,6 +175,11 @@ fn done<'a>(out: &mut Out, what: &str, cfg: &RunCfg, r: &'a ChildResult) -> Opti
                 out.v("run-panicked", &format!("{}: {}", what, describe(cfg)));
                 None
             } else {
+                // whatever stopped the run (timeout, target, finish condition): a reported discovery must be genuine
+                for b in &o.bad_disc {
+                    out.v("discovery-not-a-genuine-witness", &format!("{}: {}: {}", what, b, describe(cfg)));
+                }
+                out.stat_n("discoveries-of-child-runs-validated", o.disc.len() as u64);
                 Some(o)
             }
         }
@@ -207,6 +212,22 @@ fn timing_part(out: &mut Out, thorough: bool, rng: &mut Rng) {
                 c.watchdog_ms = 20_000;
                 c.perturb = if rng.chance(1, 2) { 0 } else { 1 + rng.next() % 1000 };
                 cfgs.push(c);
+                if strat == "sim" {
+                    // traces that NEVER end (two endless lanes), an eventually-property that never holds: the timeout
+                    // interrupts every worker in the middle of a trace; no counterexample may be reported for a trace
+                    // that was merely cut off (validated by `discovery_defect` in the child)
+                    let mut c = RunCfg::new(
+                        ModelSpec { shape: Shape::Chain { fuse: u64::MAX >> 8, spin: 2000 }, seed: 1, props: vec![pr(0, 0, 0), pr(1, 0, 0)], panic_at: None, panic_thread: None },
+                        strat, t,
+                    );
+                    c.chooser = "lane".into();
+                    c.sim_seed = 1 + rng.next() % 1000;
+                    c.timeout_ms = Some(ms);
+                    c.record = false;
+                    c.closure_cap = 50;
+                    c.watchdog_ms = 20_000;
+                    cfgs.push(c);
+                }
             }
         }
     }
@@ -570,6 +591,43 @@ fn market_timeout_neutral_part(out: &mut Out, thorough: bool, rng: &mut Rng) {
     stateright::verif::set_market_callback(None);
 }
 
+/// `--only simcut` (used by C03 and C11): simulation runs whose traces are CUT by a timeout in the middle — endless lanes
+/// (no trace ever ends: no eventually-counterexample may be reported at all) and the binary tree (a genuine
+/// counterexample ends in the terminal state at depth 56) — with every returned discovery re-validated in the child.
+fn simcut_part(out: &mut Out, thorough: bool, rng: &mut Rng) {
+    let wd = std::time::Duration::from_secs(60);
+    let mut cfgs = vec![];
+    for &t in if thorough { &[1usize, 2, 3, 4][..] } else { &[1usize, 3][..] } {
+        for &ms in &[150u64, 400] {
+            for endless in [true, false] {
+                let shape = if endless { Shape::Chain { fuse: u64::MAX >> 8, spin: 2000 } } else { Shape::BinTree { spin: 4000 } };
+                let mut c = RunCfg::new(
+                    ModelSpec { shape, seed: 1, props: vec![pr(0, 0, 0), pr(1, 0, 0)], panic_at: None, panic_thread: None },
+                    "sim", t,
+                );
+                if endless { c.chooser = "lane".into(); }
+                c.sim_seed = 1 + rng.next() % 1000;
+                c.timeout_ms = Some(ms);
+                c.record = false;
+                c.closure_cap = 50;
+                c.watchdog_ms = 20_000;
+                cfgs.push(c);
+            }
+        }
+    }
+    let res = run_all(&cfgs, wd, 8);
+    for (c, r) in cfgs.iter().zip(res.iter()) {
+        out.stat(&format!("simulation-cut-by-timeout-threads{}", c.threads));
+        out.distinct(&describe(c));
+        if let Some(o) = done(out, "simulation cut by a timeout", c, r) {
+            if matches!(c.model.shape, Shape::Chain { .. }) && o.disc.contains(&1) {
+                out.v("eventually-counterexample-for-a-trace-that-was-cut-off", &format!("no trace of this model ever ends, yet a counterexample was reported: {}", describe(c)));
+            }
+            out.sample(&format!("simulation {} threads={} timeout {} ms: join after {} ms, {} states, discoveries {:?}", if matches!(c.model.shape, Shape::Chain { .. }) { "endless lanes" } else { "binary tree" }, c.threads, c.timeout_ms.unwrap(), o.wall_ms, o.state_count, o.disc));
+        }
+    }
+}
+
 fn main() {
     maybe_child();
     quiet_panics();
@@ -577,6 +635,11 @@ fn main() {
     out.max_samples = 16;
     let mut rng = Rng::new(seed());
     let th = thorough();
+    if arg_str("--only").as_deref() == Some("simcut") {
+        simcut_part(&mut out, th, &mut rng);
+        out.finish();
+        return;
+    }
     if arg_str("--only").map(|s| s != "timing").unwrap_or(true) {
         matches_part(&mut out, th, &mut rng);
     }
